@@ -449,6 +449,10 @@ LexEntry:
                     tk->syntaxK_ = SyntaxKind::CloseBraceToken;
                     yyinput();
                 }
+                else {
+                    // Not one of the supported trigraphs.
+                    tk->syntaxK_ = SyntaxKind::Error;
+                }
             }
             else {
                 tk->syntaxK_ = SyntaxKind::QuestionToken;
